@@ -361,14 +361,14 @@ def work(cs):
     tmp = tempfile.mkdtemp(prefix='rtc_c20_', dir='/tmp')
     soft, hard = resource.getrlimit(resource.RLIMIT_AS)
     resource.setrlimit(resource.RLIMIT_AS, (2 * 2 ** 30, hard))      # a runaway operation must not eat the machine
-    old = signal.signal(signal.SIGALRM, _alarm)
+    old = signal.signal(signal.SIGVTALRM, _alarm)       # CPU seconds of this process, not wall clock (load-independent)
     try:
         hung = {}
         for c in cs:
             fam = c['family']
             if hung.get(fam, 0) >= 2:              # this family hangs on this tree: already reported, do not wait again
                 continue
-            signal.alarm(5)
+            signal.setitimer(signal.ITIMER_VIRTUAL, 10)
             try:
                 if fam in ('record', 'ops'):
                     (check_record if fam == 'record' else check_ops)(res, c)
@@ -378,11 +378,11 @@ def work(cs):
                 res.violation('C20/bounded/%s/raises' % fam, e, c)
             except (Timeout, MemoryError) as e:
                 hung[fam] = hung.get(fam, 0) + 1
-                res.violation('C20/bounded/%s/completes' % fam, 'no completion within 5 s / 2 GB: %r' % (e,), c)
+                res.violation('C20/bounded/%s/completes' % fam, 'no completion within 10 CPU-seconds / 2 GB: %r' % (e,), c)
             finally:
-                signal.alarm(0)
+                signal.setitimer(signal.ITIMER_VIRTUAL, 0)
     finally:
-        signal.signal(signal.SIGALRM, old)
+        signal.signal(signal.SIGVTALRM, old)
         resource.setrlimit(resource.RLIMIT_AS, (soft, hard))
         shutil.rmtree(tmp, ignore_errors=True)
     return res.part()
